@@ -242,7 +242,19 @@ def stuck_detail(s, fv):
             if fr["n"] < lost_at[-1] and fr["op"] == "ack" and str(fr.get("queue", "")).startswith("asl_workflow_events") \
                     and depth.get(fr.get("message_id"), 0) >= 2:
                 nested_acked.append(fr.get("message_id"))
-    out = {"final": fv, "pending_unsent": unsent, "pending_reply_consumed": reply_consumed,
+    # executions whose start event was delivered again after a crash (it starts the execution again: C04-F10)
+    starts = {}
+    for fr in s.broker.log:
+        if fr["op"] == "publish" and str(fr.get("routing_key", "")).startswith("asl_workflow_events"):
+            try:
+                ctx = json.loads(fr["body"].decode("utf8")).get("context") or {}
+            except Exception:
+                continue
+            if not (ctx.get("State") or {}).get("Name"):
+                starts[(fr.get("props") or {}).get("message_id")] = (ctx.get("Execution") or {}).get("Id")
+    restarted = sorted({starts[fr.get("message_id")] for fr in s.broker.log
+                        if fr["op"] == "deliver" and fr.get("redelivered") and starts.get(fr.get("message_id"))})
+    out = {"final": fv, "pending_unsent": unsent, "pending_reply_consumed": reply_consumed, "start_event_redelivered": restarted,
            "nested_join_events_acked_before_crash": nested_acked,
            "held_in_fanout": bool(v.get("branch_metadata")), "volatile": v, "crashes": s.crashes}
     if rekeyed:
@@ -265,13 +277,36 @@ LEGACY = {"C04-F1": "redelivered-task-never-requested", "C04-F2": "branch-reply-
           "C04-F4": "nested-join-result-volatile"}
 
 
+def mask_start(x, arns):
+    """the StartDate in the records of the executions `arns`, masked"""
+    if isinstance(x, dict):
+        hit = x.get("ExecutionArn") in arns
+        return {k: ("<date>" if hit and k == "StartDate" else mask_start(v, arns)) for k, v in x.items()}
+    if isinstance(x, list):
+        return [mask_start(v, arns) for v in x]
+    return x
+
+
+def classify_by_hand(f, case, impl, model):
+    """findings about data the protocol model does not have"""
+    if f.get("classifier") == "child-start-event-redelivered":
+        # C04-F10: the final status / output differ from the crash-free run's in nothing but the StartDate reported for child
+        # executions whose start event was delivered a second time after the crash
+        arns = set(impl.get("start_event_redelivered") or []) if isinstance(impl, dict) else set()
+        return bool(arns) and isinstance(model, dict) and isinstance(impl.get("final"), dict) \
+            and cj(impl["final"]) != cj(model) and cj(mask_start(impl["final"], arns)) == cj(mask_start(model, arns))
+    return False
+
+
 def classify_by_model(f, case, impl, model):
     """A crash run that breaks one of the laws is the known finding `f` exactly when the protocol model (lean/AslModel/Crash.lean)
     with the switches of all open findings on reproduces what the engine did, and with `f`'s switch off it does not
     (`explained_by`, computed in `settle`).  Runs the model cannot follow (no skeleton, no schedule, a path the crash-free run
     never took) fall back on the hand-written classifier."""
     if isinstance(impl, dict) and "explained_by" in impl:
-        return f.get("id") in impl["explained_by"]
+        if f.get("id") in impl["explained_by"]:
+            return True
+        return not impl["explained_by"] and classify_by_hand(f, case, impl, model)
     if isinstance(impl, dict) and impl.get("model") == "unsupported" and LEGACY.get(f.get("id")):
         return classify(dict(f, classifier=LEGACY[f["id"]]), case, impl, model)
     return False
@@ -301,7 +336,7 @@ class ModelSide(object):
             if r["problem"] is not None:
                 variants += [[x for x in self.open if x != sw] for sw in self.open]
             for v in variants:
-                lines.append(cm.line(v, r["skel"], r["sched"]))
+                lines.append(cm.line(v, r["skel"], r["sched"], lenient=v is not self.open))
                 owners.append((i, tuple(v)))
         answers = {}
         for (i, v), a in zip(owners, common.driver(lines, shards=8)):
@@ -349,8 +384,9 @@ class ModelSide(object):
                 for f, sw in sorted(self.switch.items()):
                     if sw in self.open:
                         m_wo = answers.get((i, tuple(x for x in self.open if x != sw)))
-                        # (a model that cannot even follow the engine's handler invocations does not reproduce the run)
-                        if m_wo is None or not m_wo.get("sync") or m_wo.get("diverged") or cj(cm.view(m_wo, r["between"])) != cj(ev):
+                        # (the protocol without the switch is asked what it does under this schedule, leaving out the handler
+                        # invocations it does not have: a switch changes which there are)
+                        if m_wo is None or m_wo.get("diverged") or cj(cm.view(m_wo, r["between"])) != cj(ev):
                             explained.append(f)
                 if isinstance(impl, dict):
                     impl = dict(impl, explained_by=explained, model_predicts=mv)
@@ -358,7 +394,13 @@ class ModelSide(object):
                     impl = {"observed": impl, "explained_by": explained, "model_predicts": mv}
                 for f in explained:
                     chk.dist("explained_by.%s" % f)
-                chk.report(kind, case, impl=impl, model=model, law=law, classify=classify_by_model)
+                if chk.report(kind, case, impl=impl, model=model, law=law, classify=classify_by_model) == "known":
+                    # (one symptom may need several of the deviations — C04-F8's window exists because of C04-F1's deferred
+                    # handler —: the run counts for each finding whose switch it needs; `report` has counted the first)
+                    first = [f["id"] for f in chk.open_findings if f["id"] in explained][:1]
+                    for f in explained:
+                        if f not in first:
+                            chk.known_hit[f] = chk.known_hit.get(f, 0) + 1
 
 
 def request_bag(s):
